@@ -18,7 +18,8 @@ CLAIMED = {
                 "for the three table-driven handlers (C02_strings_frame, C02_bools_frame, C02_all_strings_frame: a first assignment of key K adds exactly [option; value] / the on-off form at K's slot and "
                 "the groups of all other keys are unchanged; arbitrary tables, units and values), C02_container_string_key_frame / _list_key_frame / _bool_key_frame (in the WHOLE container command: adding a first assignment of any key of the three "
                 "option tables -- 11 single-valued, 8 one-per-assignment, 3 boolean keys -- changes ExecStart= by exactly the insertion of [option; value], every argument before and after it is the same -- no other handler reads the key, every handler only "
-                "appends, and what it appends does not depend on what is already there), plus kernel-checked witnesses of the two repaired defects over the full container converter. The special "
+                "appends, and what it appends does not depend on what is already there), the same whole-command frame for the table-driven keys of .image (C02_image_string_key_frame, _bool_key_frame), .network (C02_network_string_key_frame, "
+                "_bool_key_frame, _list_key_frame) and .pod units (C02_pod_string_key_frame, _list_key_frame, on the `podman pod create` ExecStartPre= line), each with a non-vacuity example, plus kernel-checked witnesses of the two repaired defects over the full container converter. The special "
                 "handlers, word-list and name=value kinds, and the whole-command clauses (nothing else changes, global options before the sub-command, PodmanArgs after the key options, object then Exec last) "
                 "are decided by the direct metamorphic oracle on implementation output (with/without the key, all 7 types) plus whole-service correspondence with the converter model.",
         "note": "Trusted: Coq kernel; tools/docs.py / Spec/Docs.v as the documentation transcript; the converter model; extraction; driver; Mount= modelled only on the csv crate's quote-free domain.",
